@@ -212,6 +212,26 @@ fn run(name: &str, args: &[String]) -> Option<String> {
                 Err(e) => err_name(&e),
             })
         }
+        "cond.finalmsg" => {
+            // OP MSG PARENT PH AMOUNT CONSTS -> make_aggsig_final_message
+            use chia_consensus::make_aggsig_final_message::make_aggsig_final_message;
+            use chia_consensus::owned_conditions::OwnedSpendConditions as OSC;
+            let op = dec(&args[0]) as u16;
+            let msg = hx(&args[1]);
+            let k = consts_of(&hx(&args[5]));
+            let parent = Bytes32::new(b32(&args[2]));
+            let ph = Bytes32::new(b32(&args[3]));
+            let amount = dec(&args[4]);
+            let coin = chia_protocol::Coin::new(parent, ph, amount);
+            let mut spend = OSC::default();
+            spend.coin_id = coin.coin_id();
+            spend.parent_id = parent;
+            spend.puzzle_hash = ph;
+            spend.coin_amount = amount;
+            let mut m: Vec<u8> = msg;
+            make_aggsig_final_message(op, &mut m, &spend, &k);
+            Some(hexo(&m))
+        }
         "cond.ucost" => Some(format!("{}", compute_unknown_condition_cost(dec(&args[0]) as u16))),
         "cond.opcode" => {
             let mut a = Allocator::new();
